@@ -23,12 +23,14 @@ MANIFEST = dict(
           "Vector/Point ==: 'exact (or within eps/1000) => True, violated by the 4 eps margin => False', boundary points (end points, t = 0, t = 1) in the exact-true region; from these the exact contracts "
           "'admitted => (x in S <=> denotation)' used everywhere else. Line in Plane and the composite cases Segment in Line/Plane/Segment/HalfLine, HalfLine in Line/Plane are proved against universal witnesses "
           "(True => every point contained; False => a named point of x is outside)."),
-    note=("A1, A5. Point in ConvexPolygon / ConvexPolyhedron, HalfLine in HalfLine and ConvexPolygon in Plane/ConvexPolyhedron are covered by the labelled bounded stand-in (membership catalogue with exact oracle) in this revision, not by proof."),
+    note=("A1, A5. Shape bounds: Point in ConvexPolygon is proved for n = 3..6 vertices and Point in ConvexPolyhedron for F = 4..6 opaque faces (centre, outward unit normal), against the half-plane / half-space denotation "
+          "with symbolic eps; Segment in ConvexPolygon / ConvexPolyhedron by convexity of that denotation; HalfLine in HalfLine and the forward direction of ConvexPolygon in Plane. ConvexPolygon in ConvexPolyhedron, the converse of ConvexPolygon in Plane "
+          "and larger shapes are covered by the labelled bounded stand-in (membership catalogue with exact oracle), not by proof."),
     design_ref="DESIGN.md section 9 (C05), section 4",
 )
 EXPLANATION = "tolerance predicates proved with symbolic eps (SCALAR world, ghost scalars for |u|^2, u.v); composite membership over symbolic coordinates"
-BOUNDED_ONLY = ["Geometry3D.geometry.polygon:ConvexPolygon.__contains__", "Geometry3D.geometry.polyhedron:ConvexPolyhedron.__contains__", "Geometry3D.geometry.halfline:HalfLine.__contains__(HalfLine)",
-                "Geometry3D.geometry.polygon:ConvexPolygon.in_"]
+BOUNDED_ONLY = ["Geometry3D.geometry.polyhedron:ConvexPolyhedron.__contains__(ConvexPolygon)", "Geometry3D.geometry.polygon:ConvexPolygon.in_ (converse direction)"]
+TRUSTED = ["shape bound: polygons with 3..6 vertices, polyhedra with 4..6 opaque faces (Point membership); flat types carry no bound"]
 ASSUMES = ["A1", "A2", "A5", "A6"]
 T_GET_EPS = "Geometry3D.utils.constant:get_eps"
 
@@ -302,6 +304,7 @@ def groups(tier):
                         stubs=ex, world="COORD", timeout_s=300))
     for kind in ("Line", "Plane"):
         gs.append(Group("HalfLine in %s" % kind, h_halfline_in_flat(kind), ["Geometry3D.geometry.halfline:HalfLine.in_"], stubs=ex, world="COORD", timeout_s=300))
+    gs += polygon_groups(tier)
     return gs
 
 
@@ -313,3 +316,188 @@ def bounded(tier, seed):
 def replay_case(case):
     from g3dvc import bounded as B
     return B.replay_membership(case)
+
+
+# ---------------------------------------------------------------------------
+# Point / Segment in ConvexPolygon and ConvexPolyhedron (per shape), remaining composite cases
+# ---------------------------------------------------------------------------
+
+def h_point_in_polygon(n):
+    def h(vc):
+        g = C.G()
+        eps = eps_of(vc)
+        pg = C.polygon(vc, "K", n, convex=False)  # the contract is the half-plane denotation itself; convexity is not needed for it
+        x = C.P(vc, "x")
+        xv = SP.vec(x)
+        nv, pp = SP.vec(pg.plane.n), SP.vec(pg.plane.p)
+        pts = [SP.vec(p) for p in pg.points]
+        qs = [SP.dot(nv, SP.cross(SP.sub(pts[(i + 1) % n], pts[i]), SP.sub(xv, pts[i]))) for i in range(n)]
+        before = (vc.snapshot(pg), vc.snapshot(x))
+        out = vc.call(lambda: x in pg)
+        if vc.symbolic:
+            ks = vc.log.get("normalized", [])
+            if ks:
+                k = ks[0][0]
+                vc.hint("k = 1 for a unit normal", Implies(And(k > 0, k * k * SP.norm2(nv) == 1, SP.norm2(nv) == 1), k == 1))
+                for i in range(n):
+                    v0 = SP.sub(pts[(i + 1) % n], pts[i])
+                    code_term = SP.dot(SP.sub(xv, pts[i]), SP.cross(SP.scale(k, nv), v0))
+                    vc.hint("scalar triple product, edge %d" % i, code_term == k * qs[i])
+        in_plane = SP.dot(SP.sub(xv, pp), nv)
+        exact_in = And(in_plane == 0, *[q >= 0 for q in qs]) if vc.symbolic else (SP.eqz(in_plane) and all(SP.gez(q) for q in qs))
+        outside = Or(big(in_plane, eps), *[q <= -4 * eps for q in qs]) if vc.symbolic else (abs(in_plane) >= 4 * eps or any(q <= -4 * eps for q in qs))
+        _tol(vc, out, "Point in ConvexPolygon[n=%d]" % n, exact_in, outside, probe=(n == 3))
+        vc.ensure("frame: operands unchanged", (vc.snapshot(pg), vc.snapshot(x)) == before)
+
+    return h
+
+
+def h_point_in_polyhedron(F_):
+    def h(vc):
+        eps = eps_of(vc)
+        ph = C.polyhedron_faces(vc, "K", F_)
+        x = C.P(vc, "x")
+        xv = SP.vec(x)
+        qs = [SP.dot(SP.sub(xv, SP.vec(f.center_point)), SP.vec(f.plane.n)) for f in ph.convex_polygons]
+        out = vc.call(lambda: x in ph)
+        exact_in = And(*[q <= 0 for q in qs]) if vc.symbolic else all(SP.lez(q) for q in qs)
+        outside = Or(*[q >= 4 * eps for q in qs]) if vc.symbolic else any(q >= 4 * eps for q in qs)
+        _tol(vc, out, "Point in ConvexPolyhedron[F=%d]" % F_, exact_in, outside, probe=(F_ == 4))
+
+    return h
+
+
+def h_segment_in_convex(kind, size):
+    """Segment in ConvexPolygon / ConvexPolyhedron: both end points; by convexity of the half-space denotation every point of the segment"""
+    def h(vc):
+        g = C.G()
+        s = C.segment(vc, "s")
+        K_ = C.polygon(vc, "K", size, convex=False) if kind == "ConvexPolygon" else C.polyhedron_faces(vc, "K", size)
+        member = (lambda x: C.polygon_member(x, K_)) if kind == "ConvexPolygon" else (lambda x: C.polyhedron_member(x, K_))
+        a, b = SP.vec(s.start_point), SP.vec(s.end_point)
+        t = vc.real("t")
+        vc.assume(And(t >= 0, t <= 1), "x = a + t (b - a) is an arbitrary point of the segment")
+        x = SP.add(a, SP.scale(t, SP.sub(b, a)))
+        if vc.symbolic:
+            # every constraint g of the denotation is affine: g(a + t (b - a)) = (1 - t) g(a) + t g(b)
+            if kind == "ConvexPolygon":
+                nv, pp = SP.vec(K_.plane.n), SP.vec(K_.plane.p)
+                pts = [SP.vec(p) for p in K_.points]
+                gs_ = [lambda y: SP.dot(SP.sub(y, pp), nv)] + [(lambda y, i=i: SP.dot(nv, SP.cross(SP.sub(pts[(i + 1) % len(pts)], pts[i]), SP.sub(y, pts[i])))) for i in range(len(pts))]
+            else:
+                gs_ = [(lambda y, f=f: SP.dot(SP.sub(y, SP.vec(f.center_point)), SP.vec(f.plane.n))) for f in K_.convex_polygons]
+            ghosts = []
+            for i, gfun in enumerate(gs_):
+                vc.hint("constraint %d is affine along the segment" % i, gfun(x) == (1 - t) * gfun(a) + t * gfun(b))
+                ghosts += [gfun(x), gfun(a), gfun(b)]
+            vc.ghost(*ghosts)
+        out = vc.call(lambda: s in K_)
+        vc.ensure("Segment in %s does not raise" % kind, out.returned)
+        if out.returned:
+            rf = rbool(out.value)
+            vc.ensure("Segment in %s => every point of the segment is in it (convexity)" % kind, Implies(rf, member(x)))
+            vc.ensure("not (Segment in %s) => an end point is outside" % kind, Implies(Not(rf), Or(Not(member(a)), Not(member(b)))))
+        else:
+            vc.note(repr(out.value))
+
+    return h
+
+
+def x_polygon_contains_point(self, other):
+    g = C.G()
+    if isinstance(other, g.Point):
+        vc = S.engine()
+        vc.hit("ConvexPolygon.__contains__")
+        vc.admit(True, "Point in ConvexPolygon: in-plane test and every edge test exact or violated by 4 eps", add=False)
+        return SymBool(C.polygon_member(SP.vec(other), self))
+    return ORIG_POLY["polygon"](self, other)
+
+
+def x_polyhedron_contains_point(self, other):
+    g = C.G()
+    if isinstance(other, g.Point):
+        vc = S.engine()
+        vc.hit("ConvexPolyhedron.__contains__")
+        vc.admit(True, "Point in ConvexPolyhedron: every face test exact or violated by 4 eps", add=False)
+        return SymBool(C.polyhedron_member(SP.vec(other), self))
+    return ORIG_POLY["polyhedron"](self, other)
+
+
+ORIG_POLY = {}
+
+
+def h_halfline_in_halfline(vc):
+    g = C.G()
+    a = C.halfline(vc, "a")  # container
+    b = C.halfline(vc, "b")
+    p, v, q, w = SP.vec(a.point), SP.vec(a.vector), SP.vec(b.point), SP.vec(b.vector)
+    vw = SP.dot(v, w)
+    if vc.symbolic:
+        vc.admit(Or(vw == 0, vw >= C.ADM * C.EPS0, vw <= -C.ADM * C.EPS0), "HalfLine in HalfLine: v.w = 0 or |v.w| >= 4 eps")
+    else:
+        vc.admit(vw == 0 or abs(vw) >= float(C.ADM * C.EPS0), "HalfLine in HalfLine: v.w = 0 or |v.w| >= 4 eps")
+    t = vc.real("t")
+    vc.assume(t >= 0, "x = q + t w, t >= 0, is an arbitrary point of b")
+    x = SP.add(q, SP.scale(t, w))
+    out = vc.call(lambda: b in a)
+    vc.ensure("HalfLine in HalfLine does not raise", out.returned)
+    if out.returned:
+        rf = rbool(out.value)
+        vc.ensure("HalfLine in HalfLine => every point of it is contained", Implies(rf, SP.on_halfline(x, p, v)))
+        # a point of b that escapes: its origin, the point q + w (off the carrier), or far along an opposite direction
+        D = SP.dot(SP.sub(q, p), v)
+        neg = bool(vw < 0)
+        tfar = ((D * D + 1) / (-vw)) if neg else 1  # for opposite directions the point q + tfar w has (x - p).v = D - (D^2 + 1) < 0
+        far = SP.add(q, SP.scale(tfar, w))
+        vc.ensure("not (HalfLine in HalfLine) => its origin, q + w or a far point of it is outside",
+                  Implies(Not(rf), Or(Not(SP.on_halfline(q, p, v)), Not(SP.on_halfline(SP.add(q, w), p, v)), Not(SP.on_halfline(far, p, v)))))
+
+
+def h_polygon_in_plane(vc):
+    g = C.G()
+    pg = C.polygon(vc, "K", 3, convex=True)
+    pl = C.plane(vc, "E")
+    pp, n = SP.vec(pl.p), SP.vec(pl.n)
+    pts = [SP.vec(p) for p in pg.points]
+    kn = SP.vec(pg.plane.n)
+    if vc.symbolic:
+        cr = SP.cross(SP.sub(pts[1], pts[0]), SP.sub(pts[2], pts[0]))
+        for i in range(3):
+            vc.hint("BAC-CAB %d (normals orthogonal to both edges are parallel to their cross product)" % i,
+                    SP.cross(cr, n)[i] == SP.sub(pts[2], pts[0])[i] * SP.dot(SP.sub(pts[1], pts[0]), n) - SP.sub(pts[1], pts[0])[i] * SP.dot(SP.sub(pts[2], pts[0]), n))
+            vc.hint("BAC-CAB' %d" % i,
+                    SP.cross(cr, kn)[i] == SP.sub(pts[2], pts[0])[i] * SP.dot(SP.sub(pts[1], pts[0]), kn) - SP.sub(pts[1], pts[0])[i] * SP.dot(SP.sub(pts[2], pts[0]), kn))
+    out = vc.call(lambda: pg in pl)
+    vc.ensure("ConvexPolygon in Plane does not raise", out.returned)
+    if out.returned:
+        rf = rbool(out.value)
+        x = C.witness(vc, "x")
+        vc.ensure("ConvexPolygon in Plane => every point of the polygon's plane (hence of the polygon) is in it", Implies(And(rf, SP.on_plane(x, SP.vec(pg.plane.p), kn)), SP.on_plane(x, pp, n)))
+        # the converse (all vertices in E => True) needs 'three non-collinear points determine the plane'; it is covered by the bounded stand-in only
+    else:
+        vc.note(repr(out.value))
+
+
+def polygon_groups(tier):
+    C.remember_originals()
+    g = C.G()
+    ORIG_POLY.setdefault("polygon", g.ConvexPolygon.__dict__["__contains__"])
+    ORIG_POLY.setdefault("polyhedron", g.ConvexPolyhedron.__dict__["__contains__"])
+    eps_stub = [(T_GET_EPS, stub_get_eps)]
+    gs = []
+    sizes = (3, 4, 5, 6) if tier == "thorough" else (3, 4, 5, 6)
+    for n in sizes:
+        gs.append(Group("Point in ConvexPolygon[n=%d, tolerance, symbolic eps]" % n, h_point_in_polygon(n), ["Geometry3D.geometry.polygon:ConvexPolygon.__contains__"],
+                        stubs=eps_stub + [(C.T_PLANE_IN, C.x_plane_contains_point), (C.T_NORMALIZED, C.x_normalized)], expect_hits=["get_eps", "Plane.__contains__"],
+                        world="COORD", timeout_s=900, prove_ms=30000))
+    for F_ in (4, 5, 6):
+        gs.append(Group("Point in ConvexPolyhedron[F=%d opaque faces, tolerance, symbolic eps]" % F_, h_point_in_polyhedron(F_), ["Geometry3D.geometry.polyhedron:ConvexPolyhedron.__contains__"],
+                        stubs=eps_stub, expect_hits=["get_eps"], world="COORD", timeout_s=600, prove_ms=30000))
+    ex = exact_stubs() + [("Geometry3D.geometry.polygon:ConvexPolygon.__contains__", x_polygon_contains_point), ("Geometry3D.geometry.polyhedron:ConvexPolyhedron.__contains__", x_polyhedron_contains_point)]
+    for kind, size in (("ConvexPolygon", 3), ("ConvexPolygon", 5), ("ConvexPolyhedron", 4), ("ConvexPolyhedron", 6)):
+        gs.append(Group("Segment in %s[%d]" % (kind, size), h_segment_in_convex(kind, size), ["Geometry3D.geometry.%s:%s.__contains__" % ("polygon" if kind == "ConvexPolygon" else "polyhedron", kind)],
+                        stubs=ex, world="COORD", timeout_s=600, prove_ms=30000))
+    gs.append(Group("HalfLine in HalfLine", h_halfline_in_halfline, ["Geometry3D.geometry.halfline:HalfLine.__contains__"], stubs=exact_stubs(), world="COORD", timeout_s=600, prove_ms=30000))
+    gs.append(Group("ConvexPolygon in Plane", h_polygon_in_plane, ["Geometry3D.geometry.polygon:ConvexPolygon.in_", "Geometry3D.geometry.plane:Plane.__contains__"],
+                    stubs=exact_stubs(), world="COORD", timeout_s=600, prove_ms=30000))
+    return gs
